@@ -510,6 +510,13 @@ example : ((hrun hdemo [hLogin, hLogin, .take 0 1, .hdisc 0, .hexec 0 (.file 7)]
 -- the request still uses the first connection, which is alive
 example : ((hrun hdemo [hLogin, hLogin, .take 0 1, .hdisc 0, .base (.req 0 (.remoteCmd 1 (.file 8)))]).net.node 1).map (·.files)
     = some [8] := by decide
+-- a logoff that does not get through: the target's session manager is stopped (row 1) / the path is blocked (row 2) when the kept second
+-- connection is disconnected: the target still lists BOTH sessions, yet the kept object runs nothing afterwards (no file on node 1)
+example : ((hrun hdemo [hLogin, hLogin, .take 0 1, .base (.req 1 (.svc .sessionManager .stop)), .hdisc 0, .hexec 0 (.file 7)]).net.node 1).map
+    (fun b => (b.rem.length, b.files)) = some (2, []) := by decide
+example : ((hrun { net := { nodes := [{}, {}], hairpin := true } } [hLogin, hLogin, .take 0 1, .base (.setBlock 0 1 true), .hdisc 0,
+    .base (.setBlock 0 1 false), .hexec 0 (.file 7), .base (.req 0 (.remoteCmd 1 (.file 8)))]).net.node 1).map
+    (fun b => (b.rem.length, b.files)) = some (2, [8]) := by decide
 -- a kept LOCAL connection: works while its session is the node's local session, dead after a password change — and after the same
 -- user logged in again with the new password (a new session)
 def lcmd0 : HOp := .base (.req 0 (.localCmd "admin" "admin" (.file 1)))
